@@ -105,7 +105,7 @@ Begin(t) ==
     /\ isopen = "open" /\ pc[t] = "idle" /\ res[t] = "none"
     /\ pc' = [pc EXCEPT ![t] = IF IsWriter(t) THEN "begin" ELSE "rbegin"]
     /\ UNCHANGED <<dur, isopen, maplen, base, wlock, txn, off, snap, res, refs, crashes>>
-    /\ Step(t, IF OpOf[t].k = "store" THEN "store.begin" ELSE IF OpOf[t].k = "remove" THEN "remove.begin" ELSE "get.begin")
+    /\ Step(t, IF OpOf[t].k = "store" THEN "store.begin" ELSE IF OpOf[t].k = "remove" THEN "remove.begin" ELSE "start")
 
 Acquire(t) ==
     /\ pc[t] = "begin" /\ wlock = None
@@ -121,7 +121,7 @@ DupCheck(t) == LET i == OpOf[t].id IN
        THEN /\ pc' = [pc EXCEPT ![t] = "idle"] /\ res' = [res EXCEPT ![t] = "dup"] /\ wlock' = None
        ELSE /\ pc' = [pc EXCEPT ![t] = IF COMMIT_FIRST THEN "index" ELSE "append"] /\ UNCHANGED <<res, wlock>>
     /\ UNCHANGED <<dur, isopen, maplen, base, txn, off, snap, refs, crashes>>
-    /\ Step(t, IF txn[t][i] # None THEN "store.end" ELSE "store.preremoved")
+    /\ Step(t, IF txn[t][i] # None THEN "end" ELSE "store.preremoved")
 
 (* file growth: set_len, then remap (which may move the mapping: base changes) *)
 GrowSetLen(t) ==
@@ -192,7 +192,7 @@ RDeref(t) == LET i == OpOf[t].id IN
     /\ refs' = (IF snap[t][i] = None THEN refs ELSE refs \cup {[off |-> snap[t][i], base |-> base]})
     /\ pc' = [pc EXCEPT ![t] = "idle"]
     /\ UNCHANGED <<dur, isopen, maplen, base, wlock, txn, off, snap, crashes>>
-    /\ Step(t, "get.end")
+    /\ Step(t, "end")
 
 (* ------------------------------ crash --------------------------------------------------- *)
 Crash ==
